@@ -53,7 +53,15 @@ def _main():
         rc, o = sh("git status --porcelain", "/repo")
         assert not o.strip(), "/repo not clean"
         rc, o = sh("git apply %s" % os.path.join(d, "patch.diff"), "/repo")
-        assert rc == 0, o
+        if rc != 0:
+            # the tree has moved on (later fix: commits): merge the change instead
+            rc, o = sh("git apply --3way %s && git reset -q" % os.path.join(d, "patch.diff"), "/repo")
+            if rc != 0 or "<<<<<<<" in sh("git diff", "/repo")[1]:
+                sh("git reset -q; git checkout -- .", "/repo")
+                print(sid, "DOES NOT APPLY to the current tree:", o.strip()[:200])
+                meta["does_not_apply_to_current_tree"] = True
+                json.dump(meta, open(os.path.join(d, "meta.json"), "w"), indent=1)
+                continue
         try:
             for c in list(meta["checks"]):
                 t0 = time.time()
